@@ -7,28 +7,34 @@ open Afkak.Consumer Afkak.Monitor Afkak.Consts
 
 variable [EnvHyp]
 
+-- every leaf lemma checks nine invariant components on every path of a handler
+set_option maxHeartbeats 800000
+
 /-- entering the processor call: everything but the increasing-delivery part -/
 theorem procEnter_g5 {cfg : Cfg} {s : St} (hs : G cfg s) (hp : s.proc = none) (hf : s.frame = none)
     (hb : s.msgBlock = true ∨ s.stopping = true ∨ s.startD = .none)
-    (blk rest' : List Msg) (m : Msg) (hlo : lastOff blk = some m.off) :
+    (blk rest' : List Msg) (m : Msg) (hlo : lastOff blk = some m.off)
+    (hnh : (runR C03.haltStep {} s.out).halted = false) :
     G1 (procEnter blk rest' m.off s) ∧ Gsf (procEnter blk rest' m.off s) ∧ Gres (procEnter blk rest' m.off s) ∧
-      Gack (procEnter blk rest' m.off s) ∧ Gfo (procEnter blk rest' m.off s) ∧ Ggr cfg (procEnter blk rest' m.off s) := by
+      Gack (procEnter blk rest' m.off s) ∧ Gfo (procEnter blk rest' m.off s) ∧ Ggr cfg (procEnter blk rest' m.off s) ∧
+      Ghalt (procEnter blk rest' m.off s) := by
   unfold procEnter
-  obtain ⟨⟨h1, h2, h2b, h3, h4, h5, h6, h7, h8, h9, h10, h11, h12, h13⟩,
-          ⟨k1, k2, k3, k4, k5, k6⟩, ⟨r1, r2⟩, ⟨a1, a2, a3⟩, ⟨f1, f2, f3⟩, -, ⟨w1, w2, w3⟩, -⟩ := hs
-  exact ⟨by g1_fields, by gsf_fields, by gres_fields, by gack_fields, by gfo_fields, by ggr_fields⟩
+  obtain ⟨⟨h1, h2, h2c, h2b, h3, h4, h5, h6, h7, h8, h9, h10, h11, h12, h13⟩,
+          ⟨k1, k2, k3, k4, k5, k6⟩, ⟨r1, r2⟩, ⟨a1, a2, a3⟩, ⟨f1, f2, f3⟩, -, ⟨w1, w2, w3⟩, ⟨u1, u2⟩, -⟩ := hs
+  exact ⟨by g1_fields, by gsf_fields, by gres_fields, by gack_fields, by gfo_fields, by ggr_fields, by ghalt_fields⟩
 
 /-- entering the processor call -/
 theorem procEnter_g {cfg : Cfg} {s : St} (hs : G cfg s) (hp : s.proc = none) (hf : s.frame = none)
     (hb : s.msgBlock = true ∨ s.stopping = true ∨ s.startD = .none)
     (n : Nat) (rest : List Msg) (m : Msg) (hl : (rest.take n).getLast? = some m)
-    (hli : EnvHyp.sane → LoopInc cfg rest s) (hlp : LoopPay rest s) :
+    (hli : EnvHyp.sane → LoopInc cfg rest s) (hlp : LoopPay rest s)
+    (hnh : (runR C03.haltStep {} s.out).halted = false) :
     G cfg (procEnter (rest.take n) (rest.drop n) m.off s) := by
   have hlo := lastOff_getLast _ _ hl
   have hi := hs.inc
   have hpay := hs.pay
-  obtain ⟨g1, g2, g3, g4, g5, g6⟩ := procEnter_g5 hs hp hf hb (rest.take n) (rest.drop n) m hlo
-  refine ⟨g1, g2, g3, g4, g5, ?_, g6, ?_⟩
+  obtain ⟨g1, g2, g3, g4, g5, g6, g7⟩ := procEnter_g5 hs hp hf hb (rest.take n) (rest.drop n) m hlo hnh
+  refine ⟨g1, g2, g3, g4, g5, ?_, g6, g7, ?_⟩
   · unfold procEnter
     have hst := payStep_proc (runR C02.payStep {} s.out) (rest.take n) (fun x hx => hlp x (List.mem_of_mem_take hx))
     constructor
@@ -44,7 +50,7 @@ theorem procEnter_g {cfg : Cfg} {s : St} (hs : G cfg s) (hp : s.proc = none) (hf
     · intro r hr x hx
       simp only [emit, runR_cons, hst]
       exact hpay.payParked r hr x hx
-  clear g1 g2 g3 g4 g5 g6
+  clear g1 g2 g3 g4 g5 g6 g7
   unfold procEnter
   intro hP
   obtain ⟨i1, i2a, i2b, i2c, i2d, i2e, i3, i4, i5, i6, i7⟩ := hi hP
@@ -121,8 +127,17 @@ theorem procLeave_good {cfg : Cfg} {s0 s : St} (hs : G cfg s) (rest' : List Msg)
     (hf : s.frame = some { rest := rest', last := last }) (hf0 : s0.frame = none) (res : PRes) :
     Good cfg s0 (procLeave res rest' last s) ∧
       ((procLeave res rest' last s).proc.isSome → res = .defer) ∧
-      (EnvHyp.sane → LoopA cfg rest' (procLeave res rest' last s)) ∧ LoopPay rest' (procLeave res rest' last s) := by
+      (EnvHyp.sane → LoopA cfg rest' (procLeave res rest' last s)) ∧ LoopPay rest' (procLeave res rest' last s) ∧
+      ((∀ k t, res ≠ .err k t) → HaltPost (procLeave res rest' last s)) := by
   have hp : s.proc = none := hs.g1.frameProc (by simp [hf])
+  have hH : ∀ x : St, KeepsH s x → x.stopping = s.stopping → x.startD = s.startD → HaltPost x := by
+    intro x hk h1 h2 hh
+    unfold KeepsH at hk
+    rw [hk] at hh
+    rcases hs.halt.haltInv hh with h | h | h
+    · exact Or.inr (h2.trans h)
+    · exact Or.inl (h1.trans h)
+    · rw [h.2.2] at hf; cases hf
   have hfr := fun hP => (hs.inc hP).incFrame _ hf
   have hP' : ∀ x : St, KeepsP s x → LoopPay rest' x := fun x hk => LoopPay.keeps hk (hs.pay.payFrame _ hf)
   have hA : ∀ x : St, KeepsI cfg s x → EnvHyp.sane → LoopA cfg rest' x := by
@@ -137,35 +152,39 @@ theorem procLeave_good {cfg : Cfg} {s0 s : St} (hs : G cfg s) (rest' : List Msg)
   unfold procLeave
   cases res with
   | ok =>
-    refine ⟨⟨procLeave_g_ok hs rest' last hf, by simp [hf0]⟩, ?_, ?_, ?_⟩
+    refine ⟨⟨procLeave_g_ok hs rest' last hf, by simp [hf0]⟩, ?_, ?_, ?_, ?_⟩
     · simp [emit, hp]
     · refine hA _ ⟨?_, rfl⟩
       simp only [emit, runR_cons, incStep_procRet]
     · refine hP' _ ?_
       simp only [KeepsP, emit, runR_cons, payStep_procRet]
+    · exact fun _ => hH _ (by simp only [KeepsH, emit, runR_cons, haltStep_procRet_ok]) rfl rfl
   | err k t =>
-    refine ⟨⟨procLeave_g_err hs rest' last hf k t, by simp [hf0]⟩, ?_, ?_, ?_⟩
+    refine ⟨⟨procLeave_g_err hs rest' last hf k t, by simp [hf0]⟩, ?_, ?_, ?_, ?_⟩
     · simp [emit, hp]
     · refine hA _ ⟨?_, rfl⟩
       simp only [emit, runR_cons, incStep_procRet]
     · refine hP' _ ?_
       simp only [KeepsP, emit, runR_cons, payStep_procRet]
+    · exact fun h => absurd rfl (h k t)
   | defer =>
     simp only []
     split
-    · refine ⟨⟨procLeave_g_cancel hs rest' last hf, by simp [hf0]⟩, ?_, ?_, ?_⟩
+    · refine ⟨⟨procLeave_g_cancel hs rest' last hf, by simp [hf0]⟩, ?_, ?_, ?_, ?_⟩
       · simp
       · refine hA _ ⟨?_, rfl⟩
         simp only [emit, runR_cons, incStep_procRet, incStep_procCancel]
       · refine hP' _ ?_
         simp only [KeepsP, emit, runR_cons, payStep_procRet, payStep_procCancel]
+      · exact fun _ => hH _ (by simp only [KeepsH, emit, runR_cons, haltStep_procRet_defer, haltStep_procCancel]) rfl rfl
     · rename_i hc
-      refine ⟨⟨procLeave_g_defer hs rest' last hf hc, by simp [hf0]⟩, ?_, ?_, ?_⟩
+      refine ⟨⟨procLeave_g_defer hs rest' last hf hc, by simp [hf0]⟩, ?_, ?_, ?_, ?_⟩
       · simp
       · refine hA _ ⟨?_, rfl⟩
         simp only [emit, runR_cons, incStep_procRet]
       · refine hP' _ ?_
         simp only [KeepsP, emit, runR_cons, payStep_procRet]
+      · exact fun _ => hH _ (by simp only [KeepsH, emit, runR_cons, haltStep_procRet_defer]) rfl rfl
 
 section
 variable {cfg : Cfg} {inner : Ops} (hin : OpsPres cfg inner) (hc : OpsPN Calm inner)
@@ -180,19 +199,22 @@ def LoopPre (s : St) : Prop :=
 
 /-- one iteration, given that the rest of the loop is fine -/
 theorem procBody_good (k : St → St × Bool) {s0 : St} (n : Nat) (rest : List Msg)
-    (hk : ∀ s', Good cfg s0 s' → LoopPre s' → (EnvHyp.sane → LoopInc cfg (rest.drop n) s') → LoopPay (rest.drop n) s' →
-      Good cfg s0 (k s').1)
+    (hk : ∀ s', Good cfg s0 s' → LoopPre s' → (EnvHyp.sane → LoopInc cfg (rest.drop n) s') → LoopPay (rest.drop n) s' → LoopH s' →
+      Good cfg s0 (k s').1 ∧ ((k s').2 = true → HaltPost (k s').1))
     (m : Msg) (hl : (rest.take n).getLast? = some m) (e : PEntry)
-    {s : St} (h : Good cfg s0 s) (hpre : LoopPre s) (hli : EnvHyp.sane → LoopInc cfg rest s) (hlp : LoopPay rest s) :
-    Good cfg s0 (procBody cfg inner k (rest.take n) (rest.drop n) m.off e s).1 := by
+    {s : St} (h : Good cfg s0 s) (hpre : LoopPre s) (hli : EnvHyp.sane → LoopInc cfg rest s) (hlp : LoopPay rest s)
+    (hnh : (runR C03.haltStep {} s.out).halted = false) :
+    Good cfg s0 (procBody cfg inner k (rest.take n) (rest.drop n) m.off e s).1 ∧
+      ((procBody cfg inner k (rest.take n) (rest.drop n) m.off e s).2 = true →
+        HaltPost (procBody cfg inner k (rest.take n) (rest.drop n) m.off e s).1) := by
   obtain ⟨hp, hf, hb⟩ := hpre
   have hfr0 : s0.frame = none := by rw [← h.2]; exact hf
-  have g1 := procEnter_g h.1 hp hf hb n rest m hl hli hlp
+  have g1 := procEnter_g h.1 hp hf hb n rest m hl hli hlp hnh
   generalize rest.take n = blk at *
   generalize rest.drop n = rest' at *
   have g2 := procActs_good hin e.acts (Good.refl g1)
   have f2 : (procActs inner e.acts (procEnter blk rest' m.off s)).frame = some { rest := rest', last := m.off } := g2.2
-  obtain ⟨g3, p3, l3, y3⟩ := procLeave_good g2.1 _ _ f2 hfr0 e.res
+  obtain ⟨g3, p3, l3, y3, z3⟩ := procLeave_good g2.1 _ _ f2 hfr0 e.res
   obtain ⟨st3, mb3, sd3⟩ := procLeave_keeps e.res rest' m.off (procActs inner e.acts (procEnter blk rest' m.off s))
   have fb2 := g2.1.g1.frameBlock (by rw [f2]; rfl)
   unfold procBody
@@ -202,19 +224,31 @@ theorem procBody_good (k : St → St × Bool) {s0 : St} (n : Nat) (rest : List M
   cases hres : e.res with
   | ok =>
     simp only []
+    have z3' : HaltPost s3 := z3 (by rw [hres]; intro k t h; cases h)
     have p3' : s3.proc = none := by
       cases hpp : s3.proc with
       | none => rfl
       | some g => exact absurd (p3 (by rw [hpp]; rfl)) (by rw [hres]; simp)
     have g4 := (autoCommit_pres cfg true).step g3
     obtain ⟨k1, k2, k3, k4⟩ := autoCommit_keeps cfg true s3
+    have kh := autoCommit_keepsH cfg true s3
     split
-    · exact g4
+    · rename_i hcond
+      refine ⟨g4, fun _ _ => ?_⟩
+      simp only [Bool.or_eq_true, beq_iff_eq] at hcond
+      exact hcond
     · rename_i hcont
+      simp only [Bool.or_eq_true, beq_iff_eq, not_or] at hcont
       refine hk _ g4 ⟨k1.trans p3', by rw [g4.2]; exact hfr0, ?_⟩
-        (fun hP => ((l3 hP).keeps (autoCommit_keepsI cfg true s3)).loopInc) (y3.keeps (autoCommit_keepsP cfg true s3))
-      left
-      grind
+        (fun hP => ((l3 hP).keeps (autoCommit_keepsI cfg true s3)).loopInc) (y3.keeps (autoCommit_keepsP cfg true s3)) ?_
+      · left
+        grind
+      · intro hh
+        unfold KeepsH at kh
+        rw [kh] at hh
+        rcases z3' hh with h' | h'
+        · exact absurd (k2.trans h') hcont.1
+        · exact absurd (k4.1.2 h') hcont.2
   | err kd t =>
     simp only []
     have p3' : s3.proc = none := by
@@ -224,39 +258,67 @@ theorem procBody_good (k : St → St × Bool) {s0 : St} (n : Nat) (rest : List M
     have g4 := (handleProcessorError_pres cfg (.ext kd t) (by intro h; cases h)).step g3
     obtain ⟨k1, k2, k3, k4⟩ := handleProcessorError_keeps (.ext kd t) s3
     split
-    · exact g4
-    · split
-      · exact g4
-      · rename_i hcont _
-        refine hk _ g4 ⟨k1.trans p3', by rw [g4.2]; exact hfr0, ?_⟩
-          (fun hP => ((l3 hP).keeps (handleProcessorError_keepsI cfg _ s3)).loopInc) (y3.keeps (handleProcessorError_keepsP _ s3))
-        left
-        grind
+    · rename_i hcond
+      refine ⟨g4, fun _ _ => ?_⟩
+      simp only [Bool.or_eq_true, beq_iff_eq] at hcond
+      exact hcond
+    · rename_i hcont
+      split
+      · exact ⟨g4, fun h' => by cases h'⟩
+      · rename_i hnp
+        -- not reached: the failure is passed on unless a stop() is in progress
+        exfalso
+        simp only [Bool.or_eq_true, beq_iff_eq, not_or] at hcont
+        have : s3.stopping = false := by
+          cases hst : s3.stopping with
+          | false => rfl
+          | true => exact absurd (k2.trans hst) hcont.1
+        simp [procErrPassed, this] at hnp
   | defer =>
     simp only []
+    have z3' : HaltPost s3 := z3 (by rw [hres]; intro k t h; cases h)
     split
-    · exact g3
-    · exact (handleProcessorError_pres cfg _ (by intro h; cases h)).step g3
+    · exact ⟨g3, fun _ => z3'⟩
+    · refine ⟨(handleProcessorError_pres cfg _ (by intro h; cases h)).step g3, fun _ hh => ?_⟩
+      obtain ⟨k1, k2, k3, k4⟩ := handleProcessorError_keeps (.ext .cancelled 0) s3
+      have kh := handleProcessorError_keepsH (.ext .cancelled 0) s3
+      unfold KeepsH at kh
+      rw [kh] at hh
+      rcases z3' hh with h' | h'
+      · exact Or.inl (k2.trans h')
+      · exact Or.inr (k4.1.2 h')
 
 /-- The processing loop, entered with no generator suspended or executing. -/
 theorem procLoop_good : ∀ (fuel : Nat) (rest : List Msg) {s0 s : St}, Good cfg s0 s → LoopPre s →
-    (EnvHyp.sane → LoopInc cfg rest s) → LoopPay rest s → Good cfg s0 (procLoop cfg inner fuel rest s).1 := by
+    (EnvHyp.sane → LoopInc cfg rest s) → LoopPay rest s → LoopH s →
+    Good cfg s0 (procLoop cfg inner fuel rest s).1 ∧
+      ((procLoop cfg inner fuel rest s).2 = true → HaltPost (procLoop cfg inner fuel rest s).1) := by
   intro fuel
   induction fuel with
-  | zero => intro rest s0 s h _ _ _; simpa [procLoop] using h
+  | zero =>
+    intro rest s0 s h _ _ _ hlh
+    simp only [procLoop]
+    exact ⟨h, fun _ hh => Or.inl (hlh hh)⟩
   | succ n ih =>
-    intro rest s0 s h hpre hli hlp
+    intro rest s0 s h hpre hli hlp hlh
     unfold procLoop
     split
-    · exact h
-    · split
-      · exact h
+    · exact ⟨h, fun _ hh => Or.inl (hlh hh)⟩
+    · rename_i hguard
+      split
+      · exact ⟨h, fun _ hh => Or.inl (hlh hh)⟩
       · rename_i lastMsg hl
-        exact procBody_good hin _ _ rest (fun s' h' p' l' y' => ih _ h' p' l' y') lastMsg hl _ h hpre hli hlp
+        have hnh : (runR C03.haltStep {} s.out).halted = false := by
+          cases hh : (runR C03.haltStep {} s.out).halted with
+          | false => rfl
+          | true =>
+            have := hlh hh
+            simp [this] at hguard
+        exact procBody_good hin _ _ rest (fun s' h' p' l' y' z' => ih _ h' p' l' y' z') lastMsg hl _ h hpre hli hlp hnh
 
 /-- `finally: … _process_messages(messages)` with no block in progress -/
 theorem deliverBlock_good (msgs : List Msg) {s0 s : St} (h : Good cfg s0 s) (hp : s.proc = none) (hf : s.frame = none)
-    (hli : EnvHyp.sane → msgs ≠ [] → LoopInc cfg msgs s) (hlp : LoopPay msgs s) :
+    (hli : EnvHyp.sane → msgs ≠ [] → LoopInc cfg msgs s) (hlp : LoopPay msgs s) (hlh : LoopH s) :
     Good cfg s0 (deliverBlock cfg inner msgs s) := by
   have hf0 : s0.frame = none := by rw [← h.2]; exact hf
   unfold deliverBlock
@@ -266,13 +328,18 @@ theorem deliverBlock_good (msgs : List Msg) {s0 s : St} (h : Good cfg s0 s) (hp 
     simp only []
     have h1 : Good cfg s0 { s with msgBlock := true } := by leaf h
     have hne' : msgs ≠ [] := by intro he; simp [he] at hne
-    have h2 := procLoop_good hin (msgs.length + 1) msgs h1 ⟨hp, hf, Or.inl rfl⟩ (fun hP => hli hP hne') hlp
+    obtain ⟨h2, z2⟩ := procLoop_good hin (msgs.length + 1) msgs h1 ⟨hp, hf, Or.inl rfl⟩ (fun hP => hli hP hne') hlp hlh
     generalize (procLoop cfg inner (msgs.length + 1) msgs { s with msgBlock := true }) = res at *
     obtain ⟨s2, done⟩ := res
     simp only [] at *
     split
     · exact h2
     · rename_i hc
+      have hpost : HaltPost s2 := z2 (by
+        cases hd : done with
+        | true => rfl
+        | false => simp [hd] at hc)
+      unfold HaltPost at hpost
       have hp2 : s2.proc = none := by
         cases hpp : s2.proc with
         | none => rfl
@@ -288,7 +355,8 @@ theorem fetchTail_good (via : Bool) (r : Reply) {s0 s : St} (h : Good cfg s0 s) 
     (hq : activeReq s.requestD = none) (hpk : s.parked = none) (hrq : s.requestD = .none)
     (hr : EnvHyp.sane → ReplyOk r) (hrs : ∀ x ∈ r.msgs, x ∈ (runR C02.payStep {} s.out).seen)
     (hgr : (runR (C14.grStep cfg.bufMax) { buf := cfg.bufInit } s.out).buf = s.bufferSize ∧
-      (r.tail = .small → 0 < (runR (C14.grStep cfg.bufMax) { buf := cfg.bufInit } s.out).credit)) :
+      (r.tail = .small → 0 < (runR (C14.grStep cfg.bufMax) { buf := cfg.bufInit } s.out).credit))
+    (hlh : LoopH s) :
     Good cfg s0 (fetchTail cfg inner via r s) := by
   have hge := grow_eq_spec s.bufferSize cfg.bufMax
   unfold fetchTail
@@ -322,13 +390,13 @@ theorem fetchTail_good (via : Bool) (r : Reply) {s0 s : St} (h : Good cfg s0 s) 
   generalize hmsgs : (extract s.fetchOffset r.msgs).1 = msgs at *
   have h1 : Good cfg s0 { s with fetchOffset := fo' } := by leaf h
   split
-  · exact (retryFetch_pres cfg _).step (deliverBlock_good hin _ h1 hp hf (hL _ rfl rfl hrq) (hY _ rfl))
+  · exact (retryFetch_pres cfg _).step (deliverBlock_good hin _ h1 hp hf (hL _ rfl rfl hrq) (hY _ rfl) hlh)
   · rename_i hsmall
     have hcr := hgr.2 hsmall
     have hbuf := hgr.1
     split
     · rename_i b hb
-      exact (retryFetch_pres cfg _).step (deliverBlock_good hin _ (by leaf h) hp hf (hL _ rfl rfl hrq) (hY _ rfl))
+      exact (retryFetch_pres cfg _).step (deliverBlock_good hin _ (by leaf h) hp hf (hL _ rfl rfl hrq) (hY _ rfl) hlh)
     · rename_i hb
       have h2 : Good cfg s0 (startErrback .tooSmall { s with fetchOffset := fo' }) := by
         unfold startErrback
@@ -340,13 +408,18 @@ theorem fetchTail_good (via : Bool) (r : Reply) {s0 s : St} (h : Good cfg s0 s) 
       have k1 := hk.1
       have h3 := deliverBlock_good hin msgs h2 (k1.trans hp) (by rw [h2.2, ← h.2]; exact hf)
         (hL _ hki.1 hki.2 (hk.2.2.2.2.2.1.trans hrq)) (hY _ (startErrback_keepsP .tooSmall _))
+        (fun hh => by
+          have kh := startErrback_keepsH .tooSmall { s with fetchOffset := fo' }
+          unfold KeepsH at kh
+          rw [kh] at hh
+          exact hk.2.1.trans (hlh hh))
       split
       · have hcm := deliverBlock_calm (cfg := cfg) hc msgs _
           (calm_ok.upd (s := { s with fetchOffset := fo' }) ⟨hp, hq, hpk⟩ hk)
         exact handleFetchError_good cfg _ (by intro h; cases h) h3 hcm.1 hcm.2 (fun _ ho => by simp [Fail.isOutOfRange] at ho)
       · exact h3
   · rename_i kd t htail
-    have h3 := deliverBlock_good hin msgs h1 hp hf (hL _ rfl rfl hrq) (hY _ rfl)
+    have h3 := deliverBlock_good hin msgs h1 hp hf (hL _ rfl rfl hrq) (hY _ rfl) hlh
     split
     · exact h3
     · have hcm := deliverBlock_calm (cfg := cfg) hc msgs
@@ -369,10 +442,18 @@ theorem handleFetchResponse_good (k : Nat) (r : Reply) (c : Bool) {s : St} (hs :
   unfold handleFetchResponse
   split
   · leaf hx
-  · simp only []
+  · rename_i hrun
+    simp only []
     split
     · leaf hx
     · rename_i hb
+      have hlh : LoopH { ({ s with out := .ev (.fetchOk k r) :: s.out } : St) with retryDelay := cfg.retryInit, attempts := 1, requestD := .none } := by
+        intro hh
+        have hh' : (runR C03.haltStep {} s.out).halted = true := by simpa [runR_cons, C03.haltStep] using hh
+        rcases hs.halt.haltInv hh' with h' | h' | h'
+        · simp [h'] at hrun
+        · exact h'
+        · exact absurd h'.1 (by simpa using hb)
       have hp : s.proc = none := by
         cases hpp : s.proc with
         | none => rfl
@@ -394,11 +475,13 @@ theorem handleFetchResponse_good (k : Nat) (r : Reply) (c : Bool) {s : St} (hs :
           · exact ⟨hsync, fun _ => Nat.succ_pos _⟩
           · rename_i hns
             exact ⟨hsync, fun h => absurd (by simp [h]) hns⟩)
+        hlh
 
 include hc in
 /-- the end of `_process_messages` when resumed -/
-theorem finishFull_good {s0 s : St} (h : Good cfg s0 s) (hp : s.proc = none) (hf : s.frame = none) :
+theorem finishFull_good {s0 s : St} (h : Good cfg s0 s) (hp : s.proc = none) (hf : s.frame = none) (hpost : HaltPost s) :
     Good cfg s0 (finishFull cfg inner s) := by
+  unfold HaltPost at hpost
   unfold finishFull
   split
   · have hf0 : s0.frame = none := by rw [← h.2]; exact hf
@@ -408,13 +491,19 @@ theorem finishFull_good {s0 s : St} (h : Good cfg s0 s) (hp : s.proc = none) (hf
       obtain ⟨kp, hpk⟩ := h.1.sf.parkedReq (by rw [hr]; rfl)
       split
       · leaf h
-      · unfold fetchBody
+      · rename_i hrun
+        unfold fetchBody
+        have hlh : LoopH { s with msgBlock := false, parked := none, retryDelay := cfg.retryInit, attempts := 1, requestD := .none } := by
+          intro hh
+          rcases hpost hh with h' | h'
+          · exact h'
+          · simp [h'] at hrun
         have hsync : (runR (C14.grStep cfg.bufMax) { buf := cfg.bufInit } s.out).buf = s.bufferSize := by
           rcases h.1.gr.grSync with h' | h'
           · exact h'
           · rw [h'.2.2.2] at hr; cases hr
         exact fetchTail_good hin hc true _ (by leaf h) hp hf rfl rfl rfl (fun hP => (h.1.inc hP).parkedNN _ hr)
-          (h.1.pay.payParked _ hr) ⟨hsync, h.1.gr.grParked _ hr⟩
+          (h.1.pay.payParked _ hr) ⟨hsync, h.1.gr.grParked _ hr⟩ hlh
     · leaf h
   · exact h
 
@@ -443,8 +532,14 @@ theorem procFired_good (g : Gen) (r : Option Fail) (x : Item) {s : St} (hs : G c
       ((procFired cfg g r { s with out := x :: s.out }).msgBlock = true ∨
         (procFired cfg g r { s with out := x :: s.out }).stopping = true) ∧
       (EnvHyp.sane → LoopA cfg g.rest (procFired cfg g r { s with out := x :: s.out })) ∧
-      LoopPay g.rest (procFired cfg g r { s with out := x :: s.out }) := by
+      LoopPay g.rest (procFired cfg g r { s with out := x :: s.out }) ∧
+      ((∀ f, r = some f → procErrPassed f { s with out := x :: s.out } = false) →
+        LoopH (procFired cfg g r { s with out := x :: s.out })) := by
   have h0 := Good.refl hs
+  have hf : s.frame = none := by
+    cases hff : s.frame with
+    | none => rfl
+    | some fr => exact absurd (hs.g1.frameProc (by rw [hff]; rfl)) (by rw [hp]; simp)
   have hgp := gen_loopPay hin hs g hp
   have hle : EnvHyp.sane → g.last ≤ topOff g.last g.rest := fun hP => incFrom_le_top _ _ ((hs.inc hP).incProc g hp).2.1
   have hgen := gen_loopA hin hs g hp
@@ -461,7 +556,18 @@ theorem procFired_good (g : Gen) (r : Option Fail) (x : Item) {s : St} (hs : G c
       obtain ⟨k1, k2, k3, _⟩ := autoCommit_keeps cfg true { ({ s with out := Item.ev Ev.procOk :: s.out } : St) with proc := none, lastProcessed := some g.last }
       refine ⟨(autoCommit_pres cfg true).step h1, k1, hb.imp (fun h => k3.trans h) (fun h => k2.trans h), ?_,
         hgp _ (KeepsP.trans (b := { ({ s with out := Item.ev Ev.procOk :: s.out } : St) with proc := none, lastProcessed := some g.last })
-          (by simp only [KeepsP, runR_cons, payStep_procOk]) (autoCommit_keepsP cfg true _))⟩
+          (by simp only [KeepsP, runR_cons, payStep_procOk]) (autoCommit_keepsP cfg true _)), ?_⟩
+      rotate_left
+      · intro _ hh
+        have kh := autoCommit_keepsH cfg true { ({ s with out := Item.ev Ev.procOk :: s.out } : St) with proc := none, lastProcessed := some g.last }
+        unfold KeepsH at kh
+        rw [kh] at hh
+        simp only [runR_cons, haltStep_procOk] at hh
+        refine k2.trans ?_
+        rcases hs.halt.haltInv hh with h' | h' | h'
+        · exact absurd h' (hs.g1.procRun (by rw [hp]; rfl))
+        · exact h'
+        · rw [hp] at h'; cases h'.2.1
       exact hgen _ (KeepsI.trans (b := { ({ s with out := Item.ev Ev.procOk :: s.out } : St) with proc := none, lastProcessed := some g.last })
         ⟨by simp only [runR_cons, incStep_procOk], rfl⟩ (autoCommit_keepsI cfg true _))
     · simp at h
@@ -479,11 +585,15 @@ theorem procFired_good (g : Gen) (r : Option Fail) (x : Item) {s : St} (hs : G c
         · leaf h0
       obtain ⟨k1, k2, k3, _⟩ := handleProcessorError_keeps f { ({ s with out := x :: s.out } : St) with proc := none }
       refine ⟨(handleProcessorError_pres cfg f (hnts f rfl)).step h1, k1, hb.imp (fun h => k3.trans h) (fun h => k2.trans h), ?_,
-        hgp _ (KeepsP.trans (b := { ({ s with out := x :: s.out } : St) with proc := none }) ?_ (handleProcessorError_keepsP f _))⟩
+        hgp _ (KeepsP.trans (b := { ({ s with out := x :: s.out } : St) with proc := none }) ?_ (handleProcessorError_keepsP f _)), ?_⟩
       rotate_left
       · obtain ⟨k, t, rfl⟩ | rfl := hx
         · simp only [KeepsP, runR_cons, payStep_procErr]
         · simp only [KeepsP, runR_cons, payStep_procCancel]
+      · intro hnp _
+        have := hnp f rfl
+        simp only [procErrPassed, Bool.not_eq_false', Bool.and_eq_true] at this
+        exact k2.trans this.1
       refine hgen _ (KeepsI.trans (b := { ({ s with out := x :: s.out } : St) with proc := none }) ⟨?_, rfl⟩ (handleProcessorError_keepsI cfg f _))
       obtain ⟨k, t, rfl⟩ | rfl := hx
       · simp only [runR_cons, incStep_procErr]
@@ -495,7 +605,8 @@ theorem procFired_stop_good (g : Gen) (f : Fail) (hf : f ≠ .tooSmall) {s : St}
       (procFired cfg g (some f) (emit .procCancel (stopBlock s))).proc = none ∧
       (procFired cfg g (some f) (emit .procCancel (stopBlock s))).stopping = true ∧
       (EnvHyp.sane → LoopA cfg g.rest (procFired cfg g (some f) (emit .procCancel (stopBlock s)))) ∧
-      LoopPay g.rest (procFired cfg g (some f) (emit .procCancel (stopBlock s))) := by
+      LoopPay g.rest (procFired cfg g (some f) (emit .procCancel (stopBlock s))) ∧
+      LoopH (procFired cfg g (some f) (emit .procCancel (stopBlock s))) := by
   have h0 := Good.refl hs
   have hgp := gen_loopPay hin hs g hp
   have hb : s.msgBlock = true := hs.g1.procBlock (by rw [hp]; rfl)
@@ -508,7 +619,8 @@ theorem procFired_stop_good (g : Gen) (f : Fail) (hf : f ≠ .tooSmall) {s : St}
   obtain ⟨k1, k2, _, _⟩ := handleProcessorError_keeps f { emit .procCancel (stopBlock s) with proc := none }
   have hst' : (stopBlock s).stopping = true := by unfold stopBlock; split <;> exact hst
   refine ⟨(handleProcessorError_pres cfg f hf).step h1, k1, k2.trans hst', ?_,
-    hgp _ (KeepsP.trans (b := { emit .procCancel (stopBlock s) with proc := none }) ?_ (handleProcessorError_keepsP f _))⟩
+    hgp _ (KeepsP.trans (b := { emit .procCancel (stopBlock s) with proc := none }) ?_ (handleProcessorError_keepsP f _)),
+    fun _ => k2.trans hst'⟩
   rotate_left
   · unfold stopBlock; split <;> simp only [KeepsP, emit, runR_cons, payStep_procCancel]
   refine hgen _ (KeepsI.trans (b := { emit .procCancel (stopBlock s) with proc := none }) ⟨?_, ?_⟩ (handleProcessorError_keepsI cfg f _))
@@ -518,12 +630,14 @@ theorem procFired_stop_good (g : Gen) (f : Fail) (hf : f ≠ .tooSmall) {s : St}
 include hc in
 theorem procResume_good (g : Gen) (passed : Bool) {s0 s : St} (h : Good cfg s0 s) (hp : s.proc = none)
     (hf : s.frame = none) (hb : s.msgBlock = true ∨ s.stopping = true) (hli : EnvHyp.sane → LoopA cfg g.rest s)
-    (hlp : LoopPay g.rest s) : Good cfg s0 (procResume cfg inner g passed s) := by
+    (hlp : LoopPay g.rest s) (hlh : passed = false → LoopH s) : Good cfg s0 (procResume cfg inner g passed s) := by
   unfold procResume
   split
   · exact h
-  · simp only []
-    have h3 := procLoop_good hin (g.rest.length + 1) g.rest h ⟨hp, hf, hb.imp id Or.inl⟩ (fun hP => (hli hP).loopInc) hlp
+  · rename_i hnp
+    simp only []
+    obtain ⟨h3, z3⟩ := procLoop_good hin (g.rest.length + 1) g.rest h ⟨hp, hf, hb.imp id Or.inl⟩ (fun hP => (hli hP).loopInc) hlp
+      (hlh (by simpa using hnp))
     split
     · exact h3
     · rename_i hcond
@@ -531,7 +645,10 @@ theorem procResume_good (g : Gen) (passed : Bool) {s0 s : St} (h : Good cfg s0 s
         cases hpp : (procLoop cfg inner (g.rest.length + 1) g.rest s).1.proc with
         | none => rfl
         | some g' => simp [hpp] at hcond
-      exact finishFull_good hin hc h3 hp3 (by rw [h3.2, ← h.2]; exact hf)
+      exact finishFull_good hin hc h3 hp3 (by rw [h3.2, ← h.2]; exact hf) (z3 (by
+        cases hd : (procLoop cfg inner (g.rest.length + 1) g.rest s).2 with
+        | true => rfl
+        | false => simp [hd] at hcond))
 
 include hc in
 theorem procResult_good (g : Gen) (r : Option Fail) (x : Item) {s : St} (hs : G cfg s) (hp : s.proc = some g)
@@ -544,13 +661,23 @@ theorem procResult_good (g : Gen) (r : Option Fail) (x : Item) {s : St} (hs : G 
     cases hff : s.frame with
     | none => rfl
     | some fr => exact absurd (hs.g1.frameProc (by rw [hff]; rfl)) (by rw [hp]; simp)
-  obtain ⟨g1, p1, b1, l1, y1⟩ := procFired_good hin g r x hs hp hb hlc hx hnts
-  have h2 := fun p => procResume_good hin hc g p g1 p1 (by rw [g1.2]; exact hf) b1 l1 y1
-  unfold procResult
-  simp only []
-  split
-  · exact (commitAndStop_pres hin).step (h2 _)
-  · exact h2 _
+  obtain ⟨g1, p1, b1, l1, y1, z1⟩ := procFired_good hin g r x hs hp hb hlc hx hnts
+  have h2 : ∀ p, (p = false → ∀ f, r = some f → procErrPassed f { s with out := x :: s.out } = false) →
+      Good cfg s (procResume cfg inner g p (procFired cfg g r { s with out := x :: s.out })) :=
+    fun p hpz => procResume_good hin hc g p g1 p1 (by rw [g1.2]; exact hf) b1 l1 y1 (fun hp0 => z1 (hpz hp0))
+  cases r with
+  | none =>
+    unfold procResult
+    simp only []
+    split
+    · exact (commitAndStop_pres hin).step (h2 _ (fun _ f hf' => by cases hf'))
+    · exact h2 _ (fun _ f hf' => by cases hf')
+  | some f0 =>
+    unfold procResult
+    simp only []
+    split
+    · exact (commitAndStop_pres hin).step (h2 _ (fun hp0 f hf' => by cases hf'; exact hp0))
+    · exact h2 _ (fun hp0 f hf' => by cases hf'; exact hp0)
 
 end
 
